@@ -447,6 +447,7 @@ type scenario struct {
 	Hook2    *hookProgram  `json:"hook2"` // when set: the program used after the warm-up
 	Rounds   []roundSpec   `json:"rounds"`
 	Features []string      `json:"features"`
+	LongLived bool         `json:"longLived"` // one controller instance serves every recorded sync (its informers are fed by watch events)
 }
 
 func parentKey(p J) string {
@@ -554,6 +555,7 @@ func runScenario(sc *scenario) (*caseRec, error) {
 	}
 	out := &caseRec{Sc: sc}
 	w.freezeViews()
+	var persistent *builtPC
 	for _, r := range sc.Rounds {
 		for _, op := range r.PreOps {
 			w.applyExt(op)
@@ -561,9 +563,23 @@ func runScenario(sc *scenario) (*caseRec, error) {
 		if !r.Stale {
 			w.freezeViews()
 		}
-		b, err := w.buildPC(&sc.Ctl)
-		if err != nil {
-			return nil, err
+		var b *builtPC
+		if sc.LongLived && persistent != nil {
+			b = persistent
+			if !r.Stale {
+				if err := w.refreshInformers(b); err != nil {
+					return nil, err
+				}
+			}
+		} else {
+			var err error
+			b, err = w.buildPC(&sc.Ctl)
+			if err != nil {
+				return nil, err
+			}
+			if sc.LongLived {
+				persistent = b
+			}
 		}
 		for _, op := range r.LateOps {
 			w.applyExt(op)
@@ -609,8 +625,13 @@ func runScenario(sc *scenario) (*caseRec, error) {
 		b.queue.Requeues = r.Requeues
 		rec := w.runSync(&sc.Ctl, b, key)
 		w.srv.SetBeforeRequest(nil)
-		b.close()
+		if !sc.LongLived {
+			b.close()
+		}
 		out.Rounds = append(out.Rounds, rec)
+	}
+	if persistent != nil {
+		persistent.close()
 	}
 	out.Final = w.srv.AllLive()
 	return out, nil
@@ -1026,3 +1047,4 @@ func signature(c *caseRec) string {
 	}
 	return b.String()
 }
+
